@@ -8,6 +8,14 @@
 //!    `kvsLoad_visible`); every compaction the selector chose is `closed` on the state it was
 //!    chosen in (the hypothesis of `compaction_preserves`).
 use crate::common::*;
+
+fn tainted(v: Verdict, taint: &Option<String>) -> Verdict {
+    match (v, taint) {
+        (Verdict::Ok, Some(c)) => Verdict::Taint { class: c.clone() },
+        (v, _) => v,
+    }
+}
+
 use crate::store::*;
 
 fn render_get(r: &Result<Option<Vec<u8>>, String>, tomb_is_none: bool) -> String {
@@ -206,7 +214,7 @@ pub fn run_history(rec: &mut Recorder, seed: u64, hidx: u64, len: usize, nkeys: 
             } else {
                 Verdict::Fail { class: taint.clone().unwrap_or_else(|| "selector-chose-open-compaction".to_string()), detail: format!("{} levels {}->{} inputs {}", tag, c.lower_level, c.upper_level, ins.join(",")) }
             };
-            rec.case(&req, verdict, v, Some(fnv(req.as_bytes())));
+            rec.case(&req, verdict, tainted(v, &taint), Some(fnv(req.as_bytes())));
         }
         let d = match sim.dump() {
             Ok(d) => d,
@@ -257,11 +265,11 @@ pub fn run_history(rec: &mut Recorder, seed: u64, hidx: u64, len: usize, nkeys: 
         let st = state_with_ids(&d);
         let req = format!("kvs load {} :: {}", st, qs);
         let verdict = if bad.is_empty() { Verdict::Ok } else { Verdict::Fail { class: taint.clone().unwrap_or_else(|| "stale-or-wrong-read".to_string()), detail: format!("{} {}", tag, bad.join("; ")) } };
-        rec.case(&req, &obs.join(" "), verdict, if multi { Some(fnv(req.as_bytes())) } else { None });
+        rec.case(&req, &obs.join(" "), tainted(verdict, &taint), if multi { Some(fnv(req.as_bytes())) } else { None });
         let req = format!("kvs inv {}", st);
         let iv = check_invariants(&d);
         let v = if iv == "ok" { Verdict::Ok } else { Verdict::Fail { class: taint.clone().unwrap_or_else(|| "tree-invariant-violated".to_string()), detail: format!("{} {}", tag, iv) } };
-        rec.case(&req, iv, v, None);
+        rec.case(&req, iv, tainted(v, &taint), None);
     }
     rec.add("flushes", sim.flushes);
     rec.add("compactions", sim.compactions);
@@ -272,7 +280,7 @@ pub fn run_history(rec: &mut Recorder, seed: u64, hidx: u64, len: usize, nkeys: 
 
 pub fn run(args: &Args) {
     let mut rec = Recorder::new(&args.out, args.only_case);
-    let (nh, len) = if args.thorough { (500, 120) } else { (100, 60) };
+    let (nh, len) = if args.thorough { (250, 120) } else { (100, 60) };
     for h in 0..nh {
         let nkeys = if h % 3 == 0 { 4 } else if h % 3 == 1 { 7 } else { 12 };
         run_history(&mut rec, args.seed, h, len, nkeys);
